@@ -57,6 +57,10 @@ type Statement struct {
 	Argument    string
 	statements  []*Statement
 
+	// parent is the node in whose extension list the statement was filed,
+	// if it was.
+	parent Node
+
 	file string
 	line int // 1's based line number
 	col  int // 1's based column number
@@ -65,7 +69,7 @@ type Statement struct {
 func (s *Statement) NName() string         { return s.Argument }
 func (s *Statement) Kind() string          { return s.Keyword }
 func (s *Statement) Statement() *Statement { return s }
-func (s *Statement) ParentNode() Node      { return nil }
+func (s *Statement) ParentNode() Node      { return s.parent }
 func (s *Statement) Exts() []*Statement    { return nil }
 
 // Arg returns the optional argument to s.  It returns false if s has no
